@@ -1582,6 +1582,16 @@ int XMLDateTime::parseIntYear(const XMLSize_t end) const
         // otherwise they are forbidden");
     }
 
+    else if (length > 9)
+    {
+        // the year is kept in an int: more digits would wrap around (and
+        // negating the result could overflow)
+        ThrowXMLwithMemMgr1(SchemaDateTimeException
+                , XMLExcepts::DateTime_year_invalid
+                , fBuffer
+                , fMemoryManager);
+    }
+
     bool negative = (fBuffer[0] == chDash);
     int  yearVal = parseInt((negative ? 1 : 0), end);
     return ( negative ? (-1) * yearVal : yearVal );
